@@ -137,6 +137,27 @@ def oracle_entry(sc, arrays):
         u = core.impl(lambda: np.asarray(mach.estimate_ux([mach.ubm.acc_stats(arrays[0])]), dtype=float))
         if isinstance(t, core.ImplError) or isinstance(u, core.ImplError) or not core.close(t, u, 1e-12, 1e-12):
             return {"sig": "isv-transform-is-not-channel-offset", "what": f"transform(X): {t!r}; U estimate_x([acc_stats(X)]): {u!r}"}
+    # training from a raw array (every row is one session; NumPy and row-chunked Dask; labels interleaved, not grouped) agrees
+    # with training from the UBM statistics of the same rows
+    import dask.array as da
+
+    rr = np.random.default_rng(len(arrays[0]))
+    X = np.vstack(arrays + [gen.sample_data(rr, sc["w"], sc["m"], sc["v"], 8)])
+    y = np.array([(k * 7 + k // 3) % 3 for k in range(len(X))])
+    if len(set(y.tolist())) == 3:
+        def params(m):
+            return [np.asarray(m.U, float), np.asarray(m.D, float)] + ([np.asarray(m.V, float)] if sc["jfa"] else [])
+
+        ref = core.impl(lambda: params((lambda m: m.fit(m.ubm.transform(X), y))(fagen.mk_machine(dict(sc, route="fresh"), em_iterations=2))))
+        for name, xin in (("numpy", X), ("dask", da.from_array(X, chunks=(tuple(gen.random_composition(rr, len(X))), X.shape[1])))):
+            got = core.impl(lambda: params(fagen.mk_machine(dict(sc, route="fresh"), em_iterations=2).fit_using_array(xin, y)))
+            if isinstance(ref, core.ImplError) or isinstance(got, core.ImplError):
+                if not (isinstance(ref, core.ImplError) and isinstance(got, core.ImplError) and ref.kind == got.kind):
+                    return {"sig": "fit_using_array-differs", "what": f"{name}: fit_using_array {got!r} vs fit on the statistics {ref!r}"}
+                continue
+            if not all(core.close(p, q, 1e-8, 1e-9 * (1 + float(np.max(np.abs(q))))) for p, q in zip(got, ref)):
+                return {"sig": "fit_using_array-differs", "what": f"{name} array, labels {y.tolist()}: U/D/V trained from the array differ from those trained from the UBM statistics of its rows "
+                        f"(max |dU| = {float(np.max(np.abs(got[0] - ref[0])))})"}
     return None
 
 
